@@ -368,55 +368,14 @@ func (w *world) countBetween(a, b uint64) (n int) {
 	return
 }
 
-// diskRoundTrip: SaveBalances -> Disable -> LoadBalances must restore the same index (which must still be the projection).
+// diskRoundTrip: SaveBalances -> Disable -> LoadBalances must restore the same index (which must still be the projection);
+// the history then goes on ON THE RESTORED INDEX. See restart.go (cacheRestart) for what is varied.
 func (w *world) diskRoundTrip() {
-	if w.failed || !w.on {
-		return
+	um := w.useMap
+	if w.rng.Chance(1, 3) {
+		um = mapChoices[w.rng.Intn(len(mapChoices))] // the client restarted with another CFG.AllBalances.UseMapCnt
 	}
-	before, pan := realIndex()
-	if pan != "" {
-		return
-	}
-	common.Last.Mutex.Lock()
-	common.Last.Block = w.k.Ch.LastBlock()
-	common.Last.Mutex.Unlock()
-	common.CFG.AllBalances.SaveBalances = true
-	wallet.LAST_SAVED_FNAME = ""
-	var er error
-	func() {
-		defer func() {
-			if x := recover(); x != nil {
-				er = fmt.Errorf("panic: %v", x)
-			}
-		}()
-		if er = wallet.SaveBalances(); er != nil {
-			return
-		}
-		w.diskBytesTie()
-		wallet.Disable()
-		er = wallet.LoadBalances()
-	}()
-	if er != nil {
-		w.propFail("disk-reload", "SaveBalances/LoadBalances failed on a live index: "+er.Error(), nil)
-		return
-	}
-	after, pan := realIndex()
-	if pan != "" {
-		w.propFail("browse-panic", "wallet.Browse panicked after LoadBalances: "+pan, nil)
-		return
-	}
-	w.logf("disk save+reload (%d records)", len(before))
-	r.Hit("disk:save-reload")
-	if d := sameDump(before, after); d != "" {
-		w.propFail("disk-roundtrip", "the index restored by LoadBalances differs from the one SaveBalances wrote: "+d, nil)
-		return
-	}
-	w.step++
-	w.checkAll("disk-reload") // restored index = projection = model (which did not move); callbacks installed, WalletON
-	if !w.failed {
-		w.diskCorrupt(before)
-	}
-	os.RemoveAll(common.GocoinHomeDir + wallet.BALANCES_SUBDIR)
+	w.cacheRestart(um, true)
 }
 
 // diskCorrupt: the cache SaveBalances wrote is damaged (one file cut short or missing - a crash while it was written, a full
